@@ -176,6 +176,19 @@ func ribCorpus() []*CaseSpec {
 		// the rejected operation is gone for good
 		ribCase("corpus/nofwd-rejected-then-installs", nofwd, []Step{v4(1, A, "DEFAULT", "1.0.0.0/8", 7, ""), v6(2, A, "DEFAULT", "2001:db8::/32", 7, ""), mpls(3, A, "DEFAULT", 1048575, 7),
 			nh(4, A, "DEFAULT", 1), nhg(5, A, "DEFAULT", 7, 0, 1), nh(6, A, "DEFAULT", 2)}),
+		// held REPLACEs whose keys go away next to a held group whose next-hop arrives (see the
+		// server corpus): the group is installed by that cascade whatever the walk meets first
+		ribCase("corpus/failing-held-next-to-resolvable-held", fwd, []Step{nh(1, A, "DEFAULT", 1), nhg(2, A, "DEFAULT", 1, 0, 1),
+			v4(3, A, "DEFAULT", "1.0.0.0/8", 1, ""), v4(4, A, "DEFAULT", "2.0.0.0/8", 1, ""), v4(5, A, "DEFAULT", "3.0.0.0/8", 1, ""), v4(6, A, "DEFAULT", "4.0.0.0/8", 1, ""),
+			v4(7, R, "DEFAULT", "1.0.0.0/8", 7, ""), v4(8, R, "DEFAULT", "2.0.0.0/8", 7, ""), v4(9, R, "DEFAULT", "3.0.0.0/8", 7, ""), v4(10, R, "DEFAULT", "4.0.0.0/8", 7, ""),
+			v4(11, D, "DEFAULT", "1.0.0.0/8", 1, ""), v4(12, D, "DEFAULT", "2.0.0.0/8", 1, ""), v4(13, D, "DEFAULT", "3.0.0.0/8", 1, ""), v4(14, D, "DEFAULT", "4.0.0.0/8", 1, ""),
+			nhg(15, A, "DEFAULT", 3, 0, 9), nh(16, A, "DEFAULT", 9), nh(17, A, "DEFAULT", 4)}),
+		// one group id in two instances: an entry moves from the other instance's group to a group
+		// of its own instance; the own instance's group of that id, in use by another entry, stays
+		// referenced (its DELETE is refused), the other instance's is released (its DELETE succeeds)
+		ribCase("corpus/retarget-across-instances-same-group-id", fwd, []Step{ni2, nh(1, A, "DEFAULT", 1), nhg(2, A, "DEFAULT", 1, 0, 1), nhg(3, A, "DEFAULT", 2, 0, 1),
+			nh(4, A, "VRF1", 1), nhg(5, A, "VRF1", 1, 0, 1), v4(6, A, "DEFAULT", "10.0.0.0/8", 1, "VRF1"), v4(7, A, "DEFAULT", "20.0.0.0/8", 1, ""),
+			v4(8, A, "DEFAULT", "10.0.0.0/8", 2, ""), nhg(9, D, "DEFAULT", 1, 0), nhg(10, D, "VRF1", 1, 0), v4(11, R, "DEFAULT", "20.0.0.0/8", 1, "VRF1"), nhg(12, D, "DEFAULT", 1, 0)}),
 		// held ADD and held REPLACE of one key, both waiting for one group
 		ribCase("corpus/held-add-and-replace", fwd, []Step{nh(1, A, "DEFAULT", 1), v4(2, A, "DEFAULT", "1.0.0.0/8", 1, ""), v4(3, R, "DEFAULT", "1.0.0.0/8", 1, ""), nhg(4, A, "DEFAULT", 1, 0, 1), nh(5, A, "DEFAULT", 2), nhg(6, A, "DEFAULT", 2, 0, 2)}),
 	}
